@@ -101,6 +101,7 @@ fn nul_cut<const N: usize>() {
 // @bound field width 16; the decoder itself is replaced by a recorder
 // @stub encoding_rs::Encoding::decode_without_bom_handling_and_without_replacement = recorder returning nondeterministically None or a marker string
 // @stub alloc::fmt::format = returns an empty String
+// @replay twin=c19_nul_cut_16_twin
 #[kani::proof]
 #[kani::unwind(18)]
 #[kani::stub(alloc::fmt::format, format_stub)]
@@ -115,6 +116,7 @@ fn c19_nul_cut_16() {
 // @bound field width 10; decoder replaced by a recorder
 // @stub encoding_rs::Encoding::decode_without_bom_handling_and_without_replacement = recorder
 // @stub alloc::fmt::format = returns an empty String
+// @replay twin=c19_nul_cut_10_twin
 #[kani::proof]
 #[kani::unwind(12)]
 #[kani::stub(alloc::fmt::format, format_stub)]
@@ -129,10 +131,43 @@ fn c19_nul_cut_10() {
 // @bound field width 31; decoder replaced by a recorder
 // @stub encoding_rs::Encoding::decode_without_bom_handling_and_without_replacement = recorder
 // @stub alloc::fmt::format = returns an empty String
+// @replay twin=c19_nul_cut_31_twin
 #[kani::proof]
 #[kani::unwind(33)]
 #[kani::stub(alloc::fmt::format, format_stub)]
 #[kani::stub(encoding_rs::Encoding::decode_without_bom_handling_and_without_replacement, decoder_stub)]
 fn c19_nul_cut_31() {
 	nul_cut::<31>();
+}
+
+/// Native twin of `nul_cut` (replay target: the harness's oracle is a stub).  Consumes the same
+/// solver-chosen values and checks the property with the real decoder: the result depends only
+/// on the bytes before the first NUL, and never contains a replacement character.
+fn nul_cut_twin<const N: usize>() {
+	let field: [u8; N] = kani::any();
+	let _decoder_verdict: bool = kani::any();
+	let first_nul = field.iter().position(|&x| x == 0).unwrap_or(N);
+	let whole = MeleeString::try_from(&field[..]);
+	let prefix = MeleeString::try_from(&field[..first_nul]);
+	match (&whole, &prefix) {
+		(Ok(a), Ok(b)) => {
+			assert!(a.0 == b.0, "bytes after the first NUL influenced the result");
+			assert!(!a.0.contains('\u{FFFD}'), "replacement character instead of an error");
+			assert!(!a.0.contains('\0'), "NUL inside the decoded string");
+		}
+		(Err(_), Err(_)) => {}
+		_ => panic!("bytes after the first NUL decided between Ok and Err"),
+	}
+}
+
+pub fn c19_nul_cut_16_twin() {
+	nul_cut_twin::<16>();
+}
+
+pub fn c19_nul_cut_10_twin() {
+	nul_cut_twin::<10>();
+}
+
+pub fn c19_nul_cut_31_twin() {
+	nul_cut_twin::<31>();
 }
